@@ -65,6 +65,8 @@ class SccContext:
 
     # Previously read SCC word value
     self.previous_word: Optional[SccWord] = None
+    # Frame count that immediately follows the last word of the previously read SCC line
+    self.next_frame: Optional[int] = None
     self.previous_word_type: Optional[Type] = None
 
     # Caption style (Pop-on, Roll-up, Paint-on) currently processed
